@@ -140,24 +140,33 @@ Lemma rstep_rok hello pos planned layout st o st' res :
 Proof.
   unfold st_rok, all_ranges. intros H Hst.
   apply Forall_app in Hst as [Ho Hst]. apply Forall_app in Hst as [Hq Ha].
-  destruct o as [pn|pn|probe ping before popped after asp r0]; cbn [rstep] in H.
-  - destruct (take_pkt pn (rOut st)) as [[fs out']|] eqn:E; inversion H; subst; cbn [rOut rQueue rAcked].
-    + destruct (take_pkt_rok _ _ _ _ _ _ E Ho) as [Hf Ho']. split; [|exact I].
-      repeat (apply Forall_app; split); assumption.
-    + split; [|exact I]. repeat (apply Forall_app; split); assumption.
-  - destruct (take_pkt pn (rOut st)) as [[fs out']|] eqn:E; inversion H; subst; cbn [rOut rQueue rAcked].
-    + destruct (take_pkt_rok _ _ _ _ _ _ E Ho) as [Hf Ho']. split; [|exact I].
-      repeat (apply Forall_app; split); assumption.
-    + split; [|exact I]. repeat (apply Forall_app; split); assumption.
-  - destruct (pop_check (rQueue st) popped) as [q'|] eqn:E; [|discriminate].
-    destruct (pop_check_rok hello pos _ _ _ E Hq) as [Hp Hq'].
-    destruct popped as [|p ps].
-    + destruct ping; inversion H; subst; cbn [rOut rQueue rAcked]; (split; [|try exact I; try constructor]).
-      * rewrite flat_map_app. cbn [flat_map snd app]. rewrite app_nil_r. repeat (apply Forall_app; split); assumption.
-      * repeat (apply Forall_app; split); assumption.
-    + inversion H; subst; cbn [rOut rQueue rAcked]. split; [|assumption].
-      rewrite flat_map_app. cbn [flat_map snd]. rewrite app_nil_r.
-      repeat (apply Forall_app; split); assumption.
+  (* robust against new kinds of ops in UDial.Retx: every op either takes a packet out of the
+     outstanding set (loss, acknowledgement) or pops ranges off the queue (packing calls) *)
+  assert (Hfin : forall out q a r,
+            Forall (rok hello pos) (flat_map snd out) -> Forall (rok hello pos) q -> Forall (rok hello pos) a ->
+            match r with RPkt _ popped => Forall (rok hello pos) popped | _ => True end ->
+            Forall (rok hello pos) (flat_map snd (rOut (RS out q a)) ++ rQueue (RS out q a) ++ rAcked (RS out q a)) /\
+            match r with RPkt _ popped => Forall (rok hello pos) popped | _ => True end).
+  { intros out q a r H1 H2 H3 H4. cbn [rOut rQueue rAcked]. split; [|exact H4].
+    repeat (apply Forall_app; split); assumption. }
+  assert (Hsnoc : forall pn fs, Forall (rok hello pos) fs -> Forall (rok hello pos) (flat_map snd (rOut st ++ [(pn, fs)]))).
+  { intros pn fs Hfs. rewrite flat_map_app. cbn [flat_map snd]. rewrite app_nil_r. apply Forall_app. split; assumption. }
+  destruct o; cbn [rstep] in H.
+  all: try (match type of H with
+            | context [take_pkt ?pn ?out] =>
+              destruct (take_pkt pn out) as [[fs out']|] eqn:E; inversion H; subst;
+              [destruct (take_pkt_rok _ _ _ _ _ _ E Ho) as [Hf Ho']|];
+              apply (Hfin _ _ _ RNone); try assumption; try exact I; try (apply Forall_app; split; assumption)
+            end).
+  all: match type of H with
+       | context [pop_check ?q ?popped] =>
+         destruct (pop_check q popped) as [q'|] eqn:E; [|discriminate];
+         destruct (pop_check_rok hello pos _ _ _ E Hq) as [Hp Hq'];
+         destruct popped;
+         repeat match type of H with context [if ?b then _ else _] => destruct b end;
+         inversion H; subst; first [apply (Hfin _ _ _ RNone) | eapply (Hfin _ _ _ (RPkt 0 _))];
+         try assumption; try exact I; try (apply Hsnoc); try assumption; try constructor
+       end.
 Qed.
 
 Lemma rrun_rok hello pos planned layout ops : forall st st' rs,
